@@ -229,6 +229,47 @@ structure Mutates (v : View) (h h' : Heap) : Prop where
   frame : Frame v.buf h h'
   shape : shape h' = shape h
 
+theorem writeSliceElem_frame {v : View} {s : SliceIdx} {x : Int} {i : Nat} {h1 h2 : Heap}
+    (hb : v.writeSliceElem s x i h1 = .ok h2) : Frame v.buf h1 h2 ∧ shape h2 = shape h1 := by
+  unfold View.writeSliceElem at hb
+  split at hb
+  · exact ⟨wr_frame hb, wr_shape hb⟩
+  · simp at hb
+
+theorem writeRaw_frame {v : View} {x : Int} {i : Nat} {h1 h2 : Heap}
+    (hb : v.writeRaw x i h1 = .ok h2) : Frame v.buf h1 h2 ∧ shape h2 = shape h1 := by
+  unfold View.writeRaw at hb
+  split at hb
+  · exact ⟨wr_frame hb, wr_shape hb⟩
+  · simp at hb
+
+theorem writeIfMask_frame {v mask : View} {x : Int} {i : Nat} {h1 h2 : Heap}
+    (hb : v.writeIfMask mask x i h1 = .ok h2) : Frame v.buf h1 h2 ∧ shape h2 = shape h1 := by
+  unfold View.writeIfMask at hb
+  split at hb
+  · split at hb
+    · exact ⟨wr_frame hb, wr_shape hb⟩
+    · simp at hb; subst hb; exact ⟨Frame.refl _ _, rfl⟩
+  · simp at hb
+
+theorem writeSliceFrom_frame {v data : View} {s : SliceIdx} {i : Nat} {h1 h2 : Heap}
+    (hb : v.writeSliceFrom s data i h1 = .ok h2) : Frame v.buf h1 h2 ∧ shape h2 = shape h1 := by
+  unfold View.writeSliceFrom at hb
+  split at hb
+  · exact writeSliceElem_frame hb
+  · simp at hb
+
+theorem writeIfMaskFrom_frame {v mask data : View} {i : Nat} {h1 h2 : Heap}
+    (hb : v.writeIfMaskFrom mask data i h1 = .ok h2) : Frame v.buf h1 h2 ∧ shape h2 = shape h1 := by
+  unfold View.writeIfMaskFrom at hb
+  split at hb
+  · simp at hb
+  · split at hb
+    · split at hb
+      · exact ⟨wr_frame hb, wr_shape hb⟩
+      · simp at hb
+    · simp at hb; subst hb; exact ⟨Frame.refl _ _, rfl⟩
+
 theorem setitemScalar_mutates {h h' : Heap} {v : View} {idx : PyIdx} {x : Int}
     (hr : setitemScalar h v idx x = .ok h') : Mutates v h h' := by
   unfold setitemScalar at hr
@@ -237,18 +278,9 @@ theorem setitemScalar_mutates {h h' : Heap} {v : View} {idx : PyIdx} {x : Int}
   · rename_i hw
     split at hr
     · simp at hr
-    · rename_i s _
-      have hbody : ∀ i (h1 h2 : Heap),
-          (match v.sliceElemPos s i with
-            | .ok p => h1.wr v.buf p x
-            | .error e => .error e) = .ok h2 → Frame v.buf h1 h2 ∧ shape h2 = shape h1 := by
-        intro i h1 h2 hb
-        split at hb
-        · exact ⟨wr_frame hb, wr_shape hb⟩
-        · simp at hb
-      exact ⟨by simpa using hw,
-        forLoop_frame v.buf _ (fun i h1 h2 hb => (hbody i h1 h2 hb).1) _ _ _ _ hr,
-        forLoop_shape _ (fun i h1 h2 hb => (hbody i h1 h2 hb).2) _ _ _ _ hr⟩
+    · exact ⟨by simpa using hw,
+        forLoop_frame v.buf _ (fun i h1 h2 hb => (writeSliceElem_frame hb).1) _ _ _ _ hr,
+        forLoop_shape _ (fun i h1 h2 hb => (writeSliceElem_frame hb).2) _ _ _ _ hr⟩
 
 theorem setitemScalarMask_mutates {h h' : Heap} {v mask : View} {x : Int}
     (hr : setitemScalarMask h v mask x = .ok h') : Mutates v h h' := by
@@ -258,32 +290,13 @@ theorem setitemScalarMask_mutates {h h' : Heap} {v mask : View} {x : Int}
   · rename_i hw
     split at hr
     · simp at hr
-    · rename_i len _
-      split at hr
-      · have hbody : ∀ i (h1 h2 : Heap),
-            (match v.rawPtrIndex i with
-              | .ok r => h1.wr v.buf (v.pos r) x
-              | .error e => .error e) = .ok h2 → Frame v.buf h1 h2 ∧ shape h2 = shape h1 := by
-          intro i h1 h2 hb
-          split at hb
-          · exact ⟨wr_frame hb, wr_shape hb⟩
-          · simp at hb
-        exact ⟨by simpa using hw,
-          forLoop_frame v.buf _ (fun i h1 h2 hb => (hbody i h1 h2 hb).1) _ _ _ _ hr,
-          forLoop_shape _ (fun i h1 h2 hb => (hbody i h1 h2 hb).2) _ _ _ _ hr⟩
-      · have hbody : ∀ i (h1 h2 : Heap),
-            (match mask.get h1 i with
-              | .ok m => if m != 0 then h1.wr v.buf (v.pos i) x else .ok h1
-              | .error e => .error e) = .ok h2 → Frame v.buf h1 h2 ∧ shape h2 = shape h1 := by
-          intro i h1 h2 hb
-          split at hb
-          · split at hb
-            · exact ⟨wr_frame hb, wr_shape hb⟩
-            · simp at hb; subst hb; exact ⟨Frame.refl _ _, rfl⟩
-          · simp at hb
-        exact ⟨by simpa using hw,
-          forLoop_frame v.buf _ (fun i h1 h2 hb => (hbody i h1 h2 hb).1) _ _ _ _ hr,
-          forLoop_shape _ (fun i h1 h2 hb => (hbody i h1 h2 hb).2) _ _ _ _ hr⟩
+    · split at hr
+      · exact ⟨by simpa using hw,
+          forLoop_frame v.buf _ (fun i h1 h2 hb => (writeRaw_frame hb).1) _ _ _ _ hr,
+          forLoop_shape _ (fun i h1 h2 hb => (writeRaw_frame hb).2) _ _ _ _ hr⟩
+      · exact ⟨by simpa using hw,
+          forLoop_frame v.buf _ (fun i h1 h2 hb => (writeIfMask_frame hb).1) _ _ _ _ hr,
+          forLoop_shape _ (fun i h1 h2 hb => (writeIfMask_frame hb).2) _ _ _ _ hr⟩
 
 theorem setitemVector_mutates {h h' : Heap} {v data : View} {idx : PyIdx}
     (hr : setitemVector h v idx data = .ok h') : Mutates v h h' := by
@@ -293,25 +306,11 @@ theorem setitemVector_mutates {h h' : Heap} {v data : View} {idx : PyIdx}
   · rename_i hw
     split at hr
     · simp at hr
-    · rename_i s _
-      split at hr
+    · split at hr
       · simp at hr
-      · have hbody : ∀ i (h1 h2 : Heap),
-            (match v.sliceElemPos s i with
-              | .ok p =>
-                match data.get h1 i with
-                | .ok x => h1.wr v.buf p x
-                | .error e => .error e
-              | .error e => .error e) = .ok h2 → Frame v.buf h1 h2 ∧ shape h2 = shape h1 := by
-          intro i h1 h2 hb
-          split at hb
-          · split at hb
-            · exact ⟨wr_frame hb, wr_shape hb⟩
-            · simp at hb
-          · simp at hb
-        exact ⟨by simpa using hw,
-          forLoop_frame v.buf _ (fun i h1 h2 hb => (hbody i h1 h2 hb).1) _ _ _ _ hr,
-          forLoop_shape _ (fun i h1 h2 hb => (hbody i h1 h2 hb).2) _ _ _ _ hr⟩
+      · exact ⟨by simpa using hw,
+          forLoop_frame v.buf _ (fun i h1 h2 hb => (writeSliceFrom_frame hb).1) _ _ _ _ hr,
+          forLoop_shape _ (fun i h1 h2 hb => (writeSliceFrom_frame hb).2) _ _ _ _ hr⟩
 
 theorem packLoop_frame (v mask data : View) :
     ∀ n i di h h', packLoop v mask data n i di h = .ok h' → Frame v.buf h h' ∧ shape h' = shape h := by
@@ -343,28 +342,10 @@ theorem setitemVectorMask_mutates {h h' : Heap} {v mask data : View}
     · simp at hr
     · split at hr
       · simp at hr
-      · rename_i len _
-        split at hr
-        · have hbody : ∀ i (h1 h2 : Heap),
-              (match mask.get h1 i with
-                | .error e => (.error e : Except Err Heap)
-                | .ok m =>
-                  if m != 0 then
-                    match data.get h1 i with
-                    | .ok x => h1.wr v.buf (v.pos i) x
-                    | .error e => .error e
-                  else .ok h1) = .ok h2 → Frame v.buf h1 h2 ∧ shape h2 = shape h1 := by
-            intro i h1 h2 hb
-            split at hb
-            · simp at hb
-            · split at hb
-              · split at hb
-                · exact ⟨wr_frame hb, wr_shape hb⟩
-                · simp at hb
-              · simp at hb; subst hb; exact ⟨Frame.refl _ _, rfl⟩
-          exact ⟨by simpa using hw,
-            forLoop_frame v.buf _ (fun i h1 h2 hb => (hbody i h1 h2 hb).1) _ _ _ _ hr,
-            forLoop_shape _ (fun i h1 h2 hb => (hbody i h1 h2 hb).2) _ _ _ _ hr⟩
+      · split at hr
+        · exact ⟨by simpa using hw,
+            forLoop_frame v.buf _ (fun i h1 h2 hb => (writeIfMaskFrom_frame hb).1) _ _ _ _ hr,
+            forLoop_shape _ (fun i h1 h2 hb => (writeIfMaskFrom_frame hb).2) _ _ _ _ hr⟩
         · split at hr
           · simp at hr
           · split at hr
@@ -440,6 +421,36 @@ theorem selfAccess_buf {cfg : Cfg} {a : View} {acc : WAccess} (h : selfAccess cf
             exact ⟨rfl, fun _ => by simpa using hw⟩
     · simp at h
 
+theorem addScalar_frame {acc : WAccess} {x : Int} {i : Nat} {h1 h2 : Heap} {b : Nat} (hb : acc.buf = b)
+    (hr : acc.addScalar x i h1 = .ok h2) : Frame b h1 h2 ∧ shape h2 = shape h1 := by
+  unfold WAccess.addScalar at hr
+  split at hr
+  · simp at hr
+  · exact WAccess.set_frame hb hr
+
+theorem addFrom_frame {acc bacc : WAccess} {i : Nat} {h1 h2 : Heap} {b : Nat} (hb : acc.buf = b)
+    (hr : acc.addFrom bacc i h1 = .ok h2) : Frame b h1 h2 ∧ shape h2 = shape h1 := by
+  unfold WAccess.addFrom at hr
+  split at hr
+  · simp at hr
+  · split at hr
+    · simp at hr
+    · exact WAccess.set_frame hb hr
+
+theorem addFromRaw_frame {a : View} {acc : MaskedAccess} {bacc : WAccess} {i : Nat} {h1 h2 : Heap} {b : Nat}
+    (hb : acc.buf = b) (hr : acc.addFromRaw a bacc i h1 = .ok h2) : Frame b h1 h2 ∧ shape h2 = shape h1 := by
+  unfold MaskedAccess.addFromRaw at hr
+  split at hr
+  · simp at hr
+  · split at hr
+    · simp at hr
+    · split at hr
+      · simp at hr
+      · simp only [MaskedAccess.set] at hr
+        split at hr
+        · rw [hb] at hr; exact ⟨wr_frame hr, wr_shape hr⟩
+        · simp at hr
+
 /-- in-place `a += x`: with the accessor guard in place a success means `a` is writable -/
 theorem iaddScalar_mutates {cfg : Cfg} {h h' : Heap} {a : View} {x : Int}
     (hr : iaddScalar cfg h a x = .ok h') :
@@ -450,16 +461,8 @@ theorem iaddScalar_mutates {cfg : Cfg} {h h' : Heap} {a : View} {x : Int}
   · simp at hr
   · rename_i acc hacc
     have hb := selfAccess_buf hacc
-    have hbody : ∀ i (h1 h2 : Heap),
-        (match acc.get h1 i with
-          | .error e => (.error e : Except Err Heap)
-          | .ok y => acc.set h1 i (y + x)) = .ok h2 → Frame a.buf h1 h2 ∧ shape h2 = shape h1 := by
-      intro i h1 h2 hbd
-      split at hbd
-      · simp at hbd
-      · exact WAccess.set_frame hb.1 hbd
-    exact ⟨hb.2, forLoop_frame a.buf _ (fun i h1 h2 hb => (hbody i h1 h2 hb).1) _ _ _ _ hr,
-      forLoop_shape _ (fun i h1 h2 hb => (hbody i h1 h2 hb).2) _ _ _ _ hr⟩
+    exact ⟨hb.2, forLoop_frame a.buf _ (fun i h1 h2 hbd => (addScalar_frame hb.1 hbd).1) _ _ _ _ hr,
+      forLoop_shape _ (fun i h1 h2 hbd => (addScalar_frame hb.1 hbd).2) _ _ _ _ hr⟩
 
 theorem iaddVector_mutates {cfg : Cfg} {h h' : Heap} {a b : View}
     (hr : iaddVector cfg h a b = .ok h') :
@@ -475,52 +478,16 @@ theorem iaddVector_mutates {cfg : Cfg} {h h' : Heap} {a b : View}
         have hb := maskedAccess_buf hacc
         split at hr
         · simp at hr
-        · rename_i bacc _
-          have hbody : ∀ i (h1 h2 : Heap),
-              (match a.rawPtrIndex i with
-                | .error e => (.error e : Except Err Heap)
-                | .ok ri =>
-                  match acc.get h1 i with
-                  | .error e => .error e
-                  | .ok y =>
-                    match bacc.get h1 ri with
-                    | .error e => .error e
-                    | .ok z => acc.set h1 i (y + z)) = .ok h2 → Frame a.buf h1 h2 ∧ shape h2 = shape h1 := by
-            intro i h1 h2 hbd
-            split at hbd
-            · simp at hbd
-            · split at hbd
-              · simp at hbd
-              · split at hbd
-                · simp at hbd
-                · simp only [MaskedAccess.set] at hbd
-                  split at hbd
-                  · rw [hb.1] at hbd; exact ⟨wr_frame hbd, wr_shape hbd⟩
-                  · simp at hbd
-          exact ⟨hb.2, forLoop_frame a.buf _ (fun i h1 h2 hb => (hbody i h1 h2 hb).1) _ _ _ _ hr,
-            forLoop_shape _ (fun i h1 h2 hb => (hbody i h1 h2 hb).2) _ _ _ _ hr⟩
+        · exact ⟨hb.2, forLoop_frame a.buf _ (fun i h1 h2 hbd => (addFromRaw_frame hb.1 hbd).1) _ _ _ _ hr,
+            forLoop_shape _ (fun i h1 h2 hbd => (addFromRaw_frame hb.1 hbd).2) _ _ _ _ hr⟩
     · split at hr
       · simp at hr
       · rename_i acc hacc
         have hb := selfAccess_buf hacc
         split at hr
         · simp at hr
-        · rename_i bacc _
-          have hbody : ∀ i (h1 h2 : Heap),
-              (match acc.get h1 i with
-                | .error e => (.error e : Except Err Heap)
-                | .ok y =>
-                  match bacc.get h1 i with
-                  | .error e => .error e
-                  | .ok z => acc.set h1 i (y + z)) = .ok h2 → Frame a.buf h1 h2 ∧ shape h2 = shape h1 := by
-            intro i h1 h2 hbd
-            split at hbd
-            · simp at hbd
-            · split at hbd
-              · simp at hbd
-              · exact WAccess.set_frame hb.1 hbd
-          exact ⟨hb.2, forLoop_frame a.buf _ (fun i h1 h2 hb => (hbody i h1 h2 hb).1) _ _ _ _ hr,
-            forLoop_shape _ (fun i h1 h2 hb => (hbody i h1 h2 hb).2) _ _ _ _ hr⟩
+        · exact ⟨hb.2, forLoop_frame a.buf _ (fun i h1 h2 hbd => (addFrom_frame hb.1 hbd).1) _ _ _ _ hr,
+            forLoop_shape _ (fun i h1 h2 hbd => (addFrom_frame hb.1 hbd).2) _ _ _ _ hr⟩
 
 end ImathVerif.FixedArray
 
